@@ -25,6 +25,10 @@ type FI struct {
 	RSec   int64  `json:"rsec"`
 	RMicro int    `json:"rus,omitempty"`
 	RZone  int    `json:"rzone,omitempty"`
+	// TFmt is FileInfo.TimeFormat ("": the default layout).  With a layout of
+	// the caller's own the readers, which know the default layout only, need
+	// not recover the times; the names must come back all the same.
+	TFmt string `json:"tfmt,omitempty"`
 }
 
 func mkTime(sec int64, micro, zoneMin int) time.Time {
@@ -39,7 +43,24 @@ func (f *FI) info() *mdiff.FileInfo {
 		return nil
 	}
 	return &mdiff.FileInfo{Left: f.Left, Right: f.Right,
-		LeftTime: mkTime(f.LSec, f.LMicro, f.LZone), RightTime: mkTime(f.RSec, f.RMicro, f.RZone)}
+		LeftTime: mkTime(f.LSec, f.LMicro, f.LZone), RightTime: mkTime(f.RSec, f.RMicro, f.RZone), TimeFormat: f.TFmt}
+}
+
+// customLayout reports whether the header's timestamps are written in a layout
+// other than the default one.
+func customLayout(fi *mdiff.FileInfo) bool {
+	return fi != nil && fi.TimeFormat != "" && fi.TimeFormat != mdiff.TimeFormat
+}
+
+// reformatInfo is the FileInfo with which re-formatting a parsed patch is
+// compared: the one that was written - except that with a custom layout, which
+// a parsed patch does not carry, the names are as written and the times are
+// whatever the reader made of them (rendered in the default layout).
+func reformatInfo(fi, parsed *mdiff.FileInfo) *mdiff.FileInfo {
+	if !customLayout(fi) || parsed == nil {
+		return fi
+	}
+	return &mdiff.FileInfo{Left: fi.Left, Right: fi.Right, LeftTime: parsed.LeftTime, RightTime: parsed.RightTime}
 }
 
 // FmtCase is one diff to be rendered in every format.
@@ -132,6 +153,9 @@ func (c FmtCase) String() string {
 	s := fmt.Sprintf("L=%s R=%s n=%d", showLines(c.L), showLines(c.R), c.N)
 	if c.FI != nil {
 		s += fmt.Sprintf(" header names %q / %q", c.FI.Left, c.FI.Right)
+		if c.FI.TFmt != "" {
+			s += fmt.Sprintf(" FileInfo.TimeFormat %q", c.FI.TFmt)
+		}
 	}
 	if c.Poison > 0 {
 		s += fmt.Sprintf(" [before each parse, a reader is given malformed text (shape %d) and rejects or accepts it]", c.Poison)
@@ -319,6 +343,9 @@ func checkInfo(got, want *mdiff.FileInfo) string {
 	if (want.Left != "" && got.Left != want.Left) || (want.Right != "" && got.Right != want.Right) {
 		return fmt.Sprintf("file names parsed as %q / %q, written as %q / %q", got.Left, got.Right, want.Left, want.Right)
 	}
+	if customLayout(want) {
+		return "" // only default-format timestamps are promised to survive
+	}
 	if !sameTime(got.LeftTime, want.LeftTime) || !sameTime(got.RightTime, want.RightTime) {
 		return fmt.Sprintf("timestamps parsed as %v / %v, written as %v / %v", got.LeftTime, got.RightTime, want.LeftTime, want.RightTime)
 	}
@@ -432,9 +459,13 @@ func checkRoundTrip(cs []*mdiff.Chunk, fi *mdiff.FileInfo, noTriage bool, st *fm
 			x.LStart, x.LEnd, x.RStart, x.REnd = up.Chunks[i].LStart, up.Chunks[i].LEnd, up.Chunks[i].RStart, up.Chunks[i].REnd
 			cc = append(cc, &x)
 		}
-		wantAgain, _ := render(mdiff.Unified, cc, fi)
+		wantAgain, _ := render(mdiff.Unified, cc, reformatInfo(fi, up.FileInfo))
 		if again != wantAgain {
 			return fmt.Sprintf("Unified -> ReadUnified -> Format: beyond known finding F5 (one-line ranges read as empty) the text differs:\nfirst:\n%s\nagain:\n%s\nexpected under F5:\n%s", utext, again, wantAgain)
+		}
+	} else if customLayout(fi) {
+		if wantAgain, _ := render(mdiff.Unified, cs, reformatInfo(fi, up.FileInfo)); again != wantAgain {
+			return fmt.Sprintf("Unified (custom time layout %q) -> ReadUnified -> Format(Unified) does not reproduce the hunks and the header names:\nfirst:\n%s\nagain:\n%s\nexpected:\n%s", fi.TimeFormat, utext, again, wantAgain)
 		}
 	} else if again != utext {
 		return fmt.Sprintf("Unified -> ReadUnified -> Format(Unified) does not reproduce the text:\nfirst:\n%s\nagain:\n%s", utext, again)
@@ -482,6 +513,7 @@ func runC14(c FmtCase, o *vk.Obs) string {
 		return c.String() + ": " + m
 	}
 	classifyFmt(d.Chunks, c.L, c.R, &st, o)
+	o.ClassIf(len(d.Chunks) > 0 && customLayout(fi) && !(fi.LeftTime.IsZero() && fi.RightTime.IsZero()), "header_time_in_custom_layout")
 	return ""
 }
 
@@ -525,16 +557,70 @@ type GitCase struct {
 	Extra   int       `json:"extra"`            // selects optional header lines per file
 	HunkCtx bool      `json:"hunkctx"`          // append function context after the second @@
 	Poison  int       `json:"poison,omitempty"` // see FmtCase.Poison (built from the first file section)
+	// Heads, when present, says how the ---/+++ lines of file section i are
+	// written (Heads[i%len]); absent: "--- a/<name>" and "+++ b/<name>".
+	Heads []GitHead `json:"heads,omitempty"`
+}
+
+// GitHead is the ---/+++ header of one file section.  An empty name in FI
+// stands for git's usual a/<name> (left) or b/<name> (right); git spells the
+// missing side of a created or deleted file "/dev/null".  Tab&1 (&2) appends
+// a tab to the left (right) header line when that line has no timestamp, as
+// git does after a name with blanks: the tab ends the name.
+type GitHead struct {
+	FI  FI  `json:"fi"`
+	Tab int `json:"tab,omitempty"`
+}
+
+// head returns the FileInfo and the tab bits for file section i.
+func (g GitCase) head(i int, name string) (*mdiff.FileInfo, int) {
+	fi := &mdiff.FileInfo{Left: "a/" + name, Right: "b/" + name}
+	if len(g.Heads) == 0 {
+		return fi, 0
+	}
+	h := g.Heads[i%len(g.Heads)]
+	hi := h.FI.info()
+	if hi.Left == "" {
+		hi.Left = fi.Left
+	}
+	if hi.Right == "" {
+		hi.Right = fi.Right
+	}
+	tab := h.Tab
+	if !hi.LeftTime.IsZero() {
+		tab &^= 1
+	}
+	if !hi.RightTime.IsZero() {
+		tab &^= 2
+	}
+	return hi, tab
+}
+
+// tabHeader appends a tab to the first (bit 1) and second (bit 2) line.
+func tabHeader(u string, tab int) string {
+	if tab&3 == 0 {
+		return u
+	}
+	lines := strings.SplitAfterN(u, "\n", 3)
+	for j := 0; j < 2 && j < len(lines); j++ {
+		if tab&(1<<j) != 0 {
+			lines[j] = strings.TrimSuffix(lines[j], "\n") + "\t\n"
+		}
+	}
+	return strings.Join(lines, "")
 }
 
 func runGit(g GitCase, o *vk.Obs) string {
 	var text strings.Builder
 	type exp struct {
 		name string
+		fi   *mdiff.FileInfo
+		own  string // the library's own rendering of the section
 		cs   []*mdiff.Chunk
 	}
 	var want []exp
 	var st fmtStats
+	devnull, tabbed, timed := false, false, false
 	for i, f := range g.Files {
 		d := f.diff()
 		if len(d.Chunks) == 0 {
@@ -551,10 +637,12 @@ func runGit(g GitCase, o *vk.Obs) string {
 			text.WriteString("similarity index 90%\n")
 		}
 		text.WriteString("index 83db48f..bf269f4 100644\n")
-		u, m := render(mdiff.Unified, d.Chunks, &mdiff.FileInfo{Left: "a/" + name, Right: "b/" + name})
+		fi, tab := g.head(i, name)
+		own, m := render(mdiff.Unified, d.Chunks, fi)
 		if m != "" {
 			return m
 		}
+		u := tabHeader(own, tab)
 		if g.HunkCtx {
 			lines := strings.SplitAfter(u, "\n")
 			for j, ln := range lines {
@@ -565,8 +653,11 @@ func runGit(g GitCase, o *vk.Obs) string {
 			u = strings.Join(lines, "")
 		}
 		text.WriteString(u)
-		want = append(want, exp{name, d.Chunks})
+		want = append(want, exp{name, fi, own, d.Chunks})
 		classifyFmt(d.Chunks, f.L, f.R, &st, &vk.Obs{})
+		devnull = devnull || fi.Left == "/dev/null" || fi.Right == "/dev/null"
+		tabbed = tabbed || tab&3 != 0
+		timed = timed || !fi.LeftTime.IsZero() || !fi.RightTime.IsZero()
 	}
 	o.Step()
 	if g.Poison > 0 && len(want) > 0 {
@@ -591,8 +682,11 @@ func runGit(g GitCase, o *vk.Obs) string {
 	f5 := false
 	for i, w := range want {
 		p := ps[i]
-		if p.FileInfo == nil || p.FileInfo.Left != "a/"+w.name || p.FileInfo.Right != "b/"+w.name {
-			return fmt.Sprintf("file section %d parsed with FileInfo %+v, want a/%s b/%s\ninput:\n%s", i, p.FileInfo, w.name, w.name, text.String())
+		if p.FileInfo == nil || p.FileInfo.Left != w.fi.Left || p.FileInfo.Right != w.fi.Right {
+			return fmt.Sprintf("file section %d parsed with FileInfo %+v, want names %q %q\ninput:\n%s", i, p.FileInfo, w.fi.Left, w.fi.Right, text.String())
+		}
+		if m := checkInfo(p.FileInfo, w.fi); m != "" {
+			return fmt.Sprintf("file section %d (%s): %s\ninput:\n%s", i, w.name, m, text.String())
 		}
 		exposed := f5Exposed(w.cs)
 		collapsed, m := compareChunks(p.Chunks, wantUnified(w.cs), exposed && !o.NoTriage)
@@ -600,6 +694,17 @@ func runGit(g GitCase, o *vk.Obs) string {
 			return fmt.Sprintf("file section %d (%s): %s\ninput:\n%s", i, w.name, m, text.String())
 		}
 		f5 = f5 || collapsed
+		if !collapsed {
+			// re-formatting the parsed section reproduces the library's own text
+			// of it (which the wrapper embeds, give or take git's decorations)
+			wantAgain := w.own
+			if customLayout(w.fi) {
+				wantAgain, _ = render(mdiff.Unified, w.cs, reformatInfo(w.fi, p.FileInfo))
+			}
+			if again, m := render(mdiff.Unified, p.Chunks, p.FileInfo); m != "" || again != wantAgain {
+				return fmt.Sprintf("file section %d (%s): ReadGitPatch -> Format(Unified) does not reproduce the section (%s):\nfirst:\n%s\nagain:\n%s\ninput:\n%s", i, w.name, m, wantAgain, again, text.String())
+			}
+		}
 	}
 	if len(want) >= 2 {
 		o.NonTrivial()
@@ -607,6 +712,9 @@ func runGit(g GitCase, o *vk.Obs) string {
 	o.ClassIf(len(want) >= 2, "files>=2")
 	o.ClassIf(g.HunkCtx, "hunk_function_context")
 	o.ClassIf(st.hostile, "hostile_line")
+	o.ClassIf(devnull, "header_name_/dev/null")
+	o.ClassIf(tabbed, "header_name_followed_by_tab")
+	o.ClassIf(timed, "header_with_timestamp")
 	if f5 {
 		o.Class("known_hit_F5")
 		o.Known("F5")
